@@ -174,3 +174,111 @@ Print Assumptions C10_raw_strict_refuted.
 Print Assumptions C10_comp_strict_refuted.
 Print Assumptions C10_stack_history_independent.
 Print Assumptions C10_example_stack.
+
+
+(* ====================================================================================
+   ARCHIVE level for the full stack (work package c03arch, theories/HistStack.v): the lifting
+   announced as missing above.  Every operation of Reader.v used by Run.hist_op respects any
+   relation that is a bisimulation for the stream calls (C10_reader_respects_* ), hence one
+   history operation started from two St-related sources gives the same rows
+   (C10_hist_op_respects), hence history independence of hist_groups for every stream with
+   SeekForgetsE — in particular compression over encryption over raw over a cursor, for ANY
+   archive bytes — as long as the reader is in the stack invariant Gstack (compression reader
+   not poisoned, same sizes_info, same offset_pos).  The invariant is carried along the
+   history if every operation of the history leaves the FRESHLY OPENED reader in it; a
+   successful stream call never poisons (C10_ok_call_not_poisoned).  After an operation that
+   fails inside the layers (inner I/O error, wrong tag, decompression error) the compression
+   reader is Empty and every later seek is refused (C10_comp_strict_refuted): results then DO
+   depend on the history, in the model as in the code; nothing is claimed there.
+   ==================================================================================== *)
+From MLA Require Import HistStack.
+
+Theorem C10_reader_respects_parse_block :
+  forall S X, Bisim S X -> forall FN TS TC TA TE s1 s2, X s1 s2 ->
+  Resp S X (parse_block FN TS TC TA TE S s1) (parse_block FN TS TC TA TE S s2).
+Proof. exact parse_block_resp. Qed.
+Theorem C10_reader_respects_bread :
+  forall S X, Bisim S X -> forall FN TS TC TA TE zf b1 b2 n, XB S X b1 b2 ->
+  RespB S X (bread FN TS TC TA TE S zf b1 n) (bread FN TS TC TA TE S zf b2 n).
+Proof. exact bread_resp. Qed.
+
+(* one operation of a history, from two sources related by the start relation *)
+Theorem C10_hist_op_respects :
+  forall k S St X, SeekForgetsE S St X ->
+  forall Y : st S -> st S -> Prop, (forall a b, X a b -> Y a b) -> (forall a b, St a b -> Y a b) ->
+  (forall a b p, St a b -> is_ok (snd (sk S a (FromStart p))) = false ->
+     Y (fst (sk S a (FromStart p))) (fst (sk S b (FromStart p)))) ->
+  forall fuel names s1 s2 m op, St s1 s2 ->
+    snd (hist_op k S fuel names (Reader.mkR s1 m) op) = snd (hist_op k S fuel names (Reader.mkR s2 m) op) /\
+    Y (r_src (fst (hist_op k S fuel names (Reader.mkR s1 m) op))) (r_src (fst (hist_op k S fuel names (Reader.mkR s2 m) op))) /\
+    r_meta (fst (hist_op k S fuel names (Reader.mkR s1 m) op)) = m /\
+    r_meta (fst (hist_op k S fuel names (Reader.mkR s2 m) op)) = m.
+Proof. exact hist_op_respects. Qed.
+
+(* history independence for any stream with SeekForgetsE, given the start relation along the history *)
+Theorem C10_hist_independent_St :
+  forall k S St X, SeekForgetsE S St X ->
+  forall fuel names r0 ops,
+    Forall (fun r => St (r_src r0) (r_src r)) (hist_readers k S fuel names r0 ops) ->
+    hist_groups k S fuel names r0 ops = map (fun op => snd (hist_op k S fuel names r0 op)) ops.
+Proof. exact hist_independent_start. Qed.
+
+(* THE statement for the stack: compression over encryption over raw over a source whose
+   absolute seek forgets (the in-memory cursor), any archive bytes, any footer, any history *)
+Theorem C10_stack_hist_independent :
+  forall k CHUNK TAG BLOCK ks tagc dec (Src : Stream), SeekForgetsP Src (fun _ _ => True) ->
+  forall si0 off0 fuel names (r0 : Reader.rstate (CompS CHUNK TAG BLOCK ks tagc dec Src)) ops,
+    Gstack CHUNK TAG BLOCK ks tagc dec Src si0 off0 (r_src r0) ->
+    Forall (fun op => Gstack CHUNK TAG BLOCK ks tagc dec Src si0 off0
+                        (r_src (fst (hist_op k (CompS CHUNK TAG BLOCK ks tagc dec Src) fuel names r0 op)))) ops ->
+    hist_groups k (CompS CHUNK TAG BLOCK ks tagc dec Src) fuel names r0 ops =
+      map (fun op => snd (hist_op k (CompS CHUNK TAG BLOCK ks tagc dec Src) fuel names r0 op)) ops /\
+    Forall (fun r => Gstack CHUNK TAG BLOCK ks tagc dec Src si0 off0 (r_src r))
+           (hist_readers k (CompS CHUNK TAG BLOCK ks tagc dec Src) fuel names r0 ops).
+Proof. exact stack_hist_independent. Qed.
+
+(* a successful call of the top layer never poisons the compression reader *)
+Theorem C10_ok_call_not_poisoned :
+  forall CHUNK TAG BLOCK ks tagc dec Src (c : st (CompS CHUNK TAG BLOCK ks tagc dec Src)) o,
+    c_state c <> CEmpty ->
+    match o with
+    | SRead n => match snd (rd (CompS CHUNK TAG BLOCK ks tagc dec Src) c n) with
+                 | Ok _ => c_state (fst (rd (CompS CHUNK TAG BLOCK ks tagc dec Src) c n)) <> CEmpty | _ => True end
+    | SSeek w => match snd (sk (CompS CHUNK TAG BLOCK ks tagc dec Src) c w) with
+                 | Ok _ => c_state (fst (sk (CompS CHUNK TAG BLOCK ks tagc dec Src) c w)) <> CEmpty | _ => True end
+    end.
+Proof. exact ok_call_not_poisoned. Qed.
+
+(* non-vacuity: the two-file archive ex_body of above behind a 3-byte header, compressed in
+   blocks of 8 (identity "compression"), encrypted in chunks of 16 (toy cipher, TAG = 4);
+   the same history as in C10_example: the third operation still returns the whole file, the
+   hypotheses of C10_stack_hist_independent hold *)
+Definition exs_nb : N := (len ex_body + 7) / 8.
+Definition exs_arch : bytes := archive 16 8 toy_ks (toy_tag 4) (fun x => x) [1; 2; 3] ex_body exs_nb.
+Definition exs_stack : Stream := CompS 16 4 8 toy_ks (toy_tag 4) (fun x => x) (Cursor exs_arch).
+Definition exs_c0 : st exs_stack :=
+  fst (comp_open 1000 (EncS 16 4 toy_ks (toy_tag 4) (Cursor exs_arch)) (enc_initialize 16 4 toy_ks (toy_tag 4) (Cursor exs_arch))
+         (@mkE (RawS (Cursor exs_arch)) (fst (raw_open (Cursor exs_arch) 3)) [] 0 0)).
+Definition exs_ops : list (list N) := [[2; 0; 2]; [1; 1]; [3; 0; 100]; [0]].
+Definition exs_good (c : st exs_stack) : bool :=
+  match c_si c, c_si exs_c0 with
+  | Some a, Some b => list_eqb N.eqb (si_sizes a) (si_sizes b) && (si_last a =? si_last b)
+  | _, _ => false
+  end &&
+  match into_inner _ (c_state c) with Ok i => r_off (e_in i) =? 3 | _ => false end.
+Example C10_example_stack_hist :
+  match ropen exs_stack exs_c0 with
+  | Ok r =>
+    nth 2 (hist_groups consts_verif exs_stack 400 [[97]; [98]] r exs_ops) [] = [[7; 5]; [0; 1; 2; 3]; [0; 4; 5]; [0]] /\
+    exs_good (r_src r) = true /\
+    forallb (fun op => exs_good (r_src (fst (hist_op consts_verif exs_stack 400 [[97]; [98]] r op)))) exs_ops = true
+  | _ => False
+  end.
+Proof. vm_compute. repeat split. Qed.
+
+Print Assumptions C10_reader_respects_parse_block.
+Print Assumptions C10_reader_respects_bread.
+Print Assumptions C10_hist_op_respects.
+Print Assumptions C10_hist_independent_St.
+Print Assumptions C10_stack_hist_independent.
+Print Assumptions C10_ok_call_not_poisoned.
